@@ -39,6 +39,16 @@ AVOID_R7_EXTRA = {
  "C18": "; also the 128-bit multiplication carries",
 }
 THEMES = {
+ "R8": ("3. the property above is violated for SOME inputs, and the violation should be hard to stumble on: it must need something specific to manifest. "
+        "A checker is already known to (i) sweep all 8-bit and 16-bit values, (ii) for wider types use boundary values (0, +-1, +-1 ulp, min, max, powers of two at every exponent and neighbours, "
+        "all-zero / all-one halves, small integers, exact multiples +-1, ties, values next to the overflow boundary of every conversion), (iii) call every public API form, (iv) cover every fractional-bit count. "
+        "This time make the change look like a real maintainer COMMIT of 10-40 lines rather than a one-token slip: an 'optimisation' or 'clean-up' of a SHARED HELPER or table "
+        "(src/helpers.rs, src/int_helper.rs, src/float_helper.rs, src/wide_div.rs, src/macros_from_to.rs, the digit/limb helpers of src/from_str.rs and src/display.rs, `FallbackHelper` / `mul_div_widen!` in src/arith.rs, "
+        "the type-level bounds and macro row tables of src/convert.rs and src/traits.rs, the constants and loops of src/transcendental.rs): replace a loop by a closed form, add a fast path with a guard, change the width of an intermediate, "
+        "reorder two checks, split a function in two, merge two match arms, hoist a computation out of a branch. The new code must be correct for almost all inputs and wrong only where an intermediate quantity "
+        "(a partial product, a remainder, a shift distance, a digit count, a normalised exponent, a running value of a loop) takes a particular value or crosses a particular threshold that is NOT a boundary value of the operands themselves. "
+        "Choose the site so that the defect surfaces as a violation of THIS property at the observation points listed above. "
+        "It must nevertheless be realistic, not an artificial `if x == 0x1234` trap, and it must not be limited to 8-bit or 16-bit types."),
  "R7": ("3. the property above is violated for SOME inputs, and the violation should be hard to stumble on: it must need something specific to manifest. "
         "A checker is already known to (i) sweep all 8-bit and 16-bit values, (ii) for wider types use boundary values (0, +-1, +-1 ulp, min, max, powers of two and neighbours, "
         "all-zero / all-one halves, small integers, exact multiples +-1, ties), (iii) call every public API form (operators by value / by reference / assigning, trait methods, `Wrapping` forwarders, iterator folds). "
@@ -83,7 +93,11 @@ def main():
             text += "\n\nWhy the existing tests cannot settle it: " + p["why_tests_cant"]
             text += "\n\nWhere the property lives:\n" + "\n".join("- %s (%s)" % (m["name"], m["where"]) for m in p["anchors"]["mechanism"])
             text += "\nObservation points: " + "; ".join(p["anchors"]["observe_at"])
-        t = t0.replace("__WT__", wt).replace("__PROP__", text).replace("__AVOID__", AVOID[pid] + (AVOID_R7_EXTRA.get(pid, "") if tag >= "R7" else "")).replace("__EXTRA__", C17_EXTRA if pid == "C17" else "")
+        if tag >= "R8":
+            t0x = t0.replace("Finish by reporting a 5-line summary.", "Work in small steps: keep every individual message short (a few sentences of reasoning, then a tool call); never write long derivations in a single message. Finish by reporting a 5-line summary.")
+        else:
+            t0x = t0
+        t = t0x.replace("__WT__", wt).replace("__PROP__", text).replace("__AVOID__", AVOID[pid] + (AVOID_R7_EXTRA.get(pid, "") if tag >= "R7" else "")).replace("__EXTRA__", C17_EXTRA if pid == "C17" else "")
         open("/tmp/wt/prompt_%s%s.txt" % (tag, pid), "w").write(t)
         print(wt)
 
